@@ -22,7 +22,7 @@ func c06Cisco(c *Ctx, tp *tape.Tape, extra map[string]any) *Failure {
 	}
 	var combos []combo
 	for _, fr := range []string{"drc", "do-approve"} {
-		for _, h := range []string{"", "other", "ROUTER", "router2"} {
+		for _, h := range []string{"", "other", "ROUTER", "router2", "rout"} {
 			for _, m := range []string{"present", "absent", "unconfigured", "partial"} {
 				combos = append(combos, combo{fr, h, m})
 			}
